@@ -1315,6 +1315,21 @@ pub fn handle_trailer(
     if !end_stream {
         return Err((H2Error::ProtocolError, false));
     }
+    // A body without Content-Length is forwarded to an HTTP/1.1 peer in chunked
+    // coding, where the trailer section comes after the last chunk
+    // (RFC 9112 §7.1: `last-chunk trailer-section CRLF`). Close the body before
+    // the trailer fields are queued: the H1 serializer then writes `0\r\n` ahead
+    // of them instead of putting them straight behind the last data chunk, which a
+    // backend reads as a malformed chunk size. The H2 serializer ignores
+    // `end_body`.
+    if kawa.body_size == BodySize::Chunked {
+        kawa.push_block(Block::Flags(Flags {
+            end_body: true,
+            end_chunk: false,
+            end_header: false,
+            end_stream: false,
+        }));
+    }
     let max_header_fields = max_header_fields as usize;
     let mut invalid_trailers = false;
     let mut budget_exceeded = false;
